@@ -24,10 +24,20 @@ Next == \/ t # Nil /\ d < Depth /\ t' \in Wraps(t) /\ d' = d + 1 /\ UNCHANGED ss
         \/ t = Nil /\ Len(ss) < MaxStmts /\ \E s \in Templates : ss' = Append(ss, s) /\ UNCHANGED <<t, d>>
 Spec == Init /\ [][Next]_vars
 
+StartsWithBracket(st) == LET ts == RenderS(st, FALSE, <<>>) IN Len(ts) > 0 /\ ts[1].ty \in {"LPAREN", "LBRACKET"}
+
 Programs ==
   IF t # Nil THEN {Ctx(c, t) : c \in Contexts}
   ELSE IF Len(ss) = 0 THEN {}
   ELSE (IF TopOK(ss) THEN {Prog(ss)} ELSE {}) \cup {Prog(<<Node("fdecl", "", <<Id("h"), PList(<<>>), Blk(ss)>>)>>)}
+       \* the same statement lists as the body of a function expression that sits INSIDE an open
+       \* bracket (call argument, called parenthesised function, array element): a statement list is a
+       \* statement list wherever it stands
+       \cup (IF \E j \in 1..Len(ss) : StartsWithBracket(ss[j])
+             THEN {Prog(<<E(Node("call", "", <<Id("f"), Fn(Nil, <<>>, ss), A>>))>>),
+                   Prog(<<E(Node("call", "", <<Grp(Fn(Nil, <<>>, ss))>>))>>),
+                   Prog(<<Let("k", Node("arr", "", <<Fn(Nil, <<Id("p")>>, ss)>>))>>)}
+             ELSE {})
 
 Run(toks, tol, smart) ==
   LET r == ParseProgram([DefaultP(toks) EXCEPT !.tolerant = tol, !.smart = smart])
